@@ -141,3 +141,45 @@ Proof.
   - assert (G : span_subspan n off c = false) by (unfold span_subspan; rewrite E; reflexivity).
     rewrite G. split; split; intros H; try discriminate; try reflexivity. lia.
 Qed.
+
+(** erase(first, last) / replace(first, last, ...) of inplace_string: the two size_t comparisons on the converted
+    iterator differences say exactly "[first, last) is a range of the string", for every pair of ptrdiff_t values *)
+Lemma str_iter_range_guard_exact size a d : 0 <= size < 2 ^ 62 ->
+  - 2 ^ 63 <= a < 2 ^ 63 -> - 2 ^ 63 <= d < 2 ^ 63 ->
+  str_iter_range_guard size a d = pre_iter_range size a d.
+Proof.
+  intros Hs Ha Hd. unfold str_iter_range_guard, pre_iter_range, u64, wrapu.
+  change (2 ^ 64) with 18446744073709551616. change (2 ^ 63) with 9223372036854775808 in *.
+  change (2 ^ 62) with 4611686018427387904 in *.
+  destruct (Z_lt_le_dec a 0) as [An|Ap].
+  - replace (0 <=? a) with false by lia. cbn [andb].
+    assert (E : a mod 18446744073709551616 = a + 18446744073709551616) by (symmetry; apply (Z.mod_unique _ _ (-1)); lia).
+    rewrite E. replace (a + 18446744073709551616 <=? size) with false by lia. reflexivity.
+  - replace (0 <=? a) with true by lia. cbn [andb]. rewrite (Z.mod_small a) by lia.
+    destruct (a <=? size) eqn:E1; cbn [andb].
+    + rewrite (Z.mod_small (size - a)) by lia.
+      destruct (Z_lt_le_dec d 0) as [Dn|Dp].
+      * replace (0 <=? d) with false by lia. cbn [andb].
+        assert (E : d mod 18446744073709551616 = d + 18446744073709551616) by (symmetry; apply (Z.mod_unique _ _ (-1)); lia).
+        rewrite E. lia.
+      * replace (0 <=? d) with true by lia. cbn [andb]. rewrite (Z.mod_small d) by lia. lia.
+    + destruct (0 <=? d) eqn:E2; cbn [andb]; lia.
+Qed.
+
+Lemma str_iter_range_site_spec size a d : 0 <= size < 2 ^ 62 -> - 2 ^ 63 <= a < 2 ^ 63 ->
+  (str_iter_range_site size a d = 0%nat <-> str_iter_range_guard size a d = true) /\
+  (str_iter_range_site size a d = 1%nat <-> ~ (0 <= a <= size)).
+Proof.
+  intros Hs Ha. unfold str_iter_range_site, str_iter_range_guard, u64, wrapu.
+  change (2 ^ 64) with 18446744073709551616. change (2 ^ 63) with 9223372036854775808 in *.
+  change (2 ^ 62) with 4611686018427387904 in *.
+  assert (E : (a mod 18446744073709551616 <=? size) = true <-> 0 <= a <= size).
+  { destruct (Z_lt_le_dec a 0) as [An|Ap].
+    - assert (E : a mod 18446744073709551616 = a + 18446744073709551616) by (symmetry; apply (Z.mod_unique _ _ (-1)); lia).
+      rewrite E. lia.
+    - rewrite (Z.mod_small a) by lia. lia. }
+  destruct (a mod 18446744073709551616 <=? size) eqn:E1; cbn [andb].
+  - destruct (d mod 18446744073709551616 <=? (size - a mod 18446744073709551616) mod 18446744073709551616);
+      split; split; intros H; try discriminate; try reflexivity; try (exfalso; apply H; apply E; reflexivity).
+  - split; split; intros H; try discriminate; try reflexivity. intros K. apply E in K. discriminate.
+Qed.
